@@ -107,7 +107,32 @@ let s_dberr (r : 'a res) : string = match r with
 let rec drop_int k l = if k = 0 then l else match l with [] -> [] | _ :: r -> drop_int (k - 1) r
 let rec first_n k l = if k = 0 then [] else match l with [] -> [] | x :: r -> x :: first_n (k - 1) r
 
-type hist = { mutable st : db; mutable ast : astate; mutable offsets : n list; names : n list list }
+type hist = { mutable st : db; mutable ast : astate; mutable offsets : n list; names : n list list;
+              mutable bm : (int * emap) option   (* the byte-level map of the first k log entries (LogBytes.v), cached *) }
+
+(* ---------- the byte-level event map (LogBytes.v) ---------- *)
+let chunk_debug = n_of_int 2048
+(* len:end:tail:block hashes -- the same digest the harness prints of the real event.map *)
+let map_digest (f : n list) : string =
+  let len = List.length f in
+  if len < 8 then Printf.sprintf "%d:short:%s" len (fnv f) else begin
+    let e_n = get_end f in
+    let e = (try min (int_of_n e_n) len with _ -> len) in
+    let used = first_n e f and tail = drop_int e f in
+    let tl = if List.for_all (fun x -> x = N0) tail then "z" else fnv tail in
+    let rec blocks l = if l = [] then [] else fnv (first_n 1024 l) :: blocks (drop_int 1024 l) in
+    Printf.sprintf "%d:%s:%s:%s" len (dec_of_n e_n) tl (String.concat "." (blocks used))
+  end
+(* bytes_of_log of the current log, computed incrementally: the log only grows at its head between rebuilds *)
+let current_map (h : hist) : emap option =
+  let lg = h.st.log in
+  let n = List.length lg in
+  let r = (match h.bm with
+    | Some (k, m) when k <= n -> replay_log chunk_debug m (List.rev (first_n (n - k) lg))
+    | _ -> bytes_of_log chunk_debug lg) in
+  (match r with Some m -> h.bm <- Some (n, m) | None -> h.bm <- None);
+  r
+
 
 let db_op (h : hist) (t : toks) : string =
   let op = next t in
@@ -138,9 +163,10 @@ let db_op (h : hist) (t : toks) : string =
              (String.concat "," (List.map (fun (e : aevent) -> hex_of_bytes (first_n 4 e.e_id)) evs)) (s_bool red)
        | r -> s_dberr r)
   | "reopen" -> h.st <- reopen h.st; "ok"
+  | "map" -> (match current_map h with Some m -> "map " ^ map_digest m.file | None -> "map REPLAY-FAILED")
   | "rebuild" ->
       (match rebuild h.st with
-       | Ok s' -> h.st <- s'; h.offsets <- [];
+       | Ok s' -> h.st <- s'; h.offsets <- []; h.bm <- None;
                   Printf.sprintf "ok bak=%s" (s_bool (s'.bak <> None))
        | r -> s_dberr r)
   | "xput" ->
@@ -205,6 +231,7 @@ let spec_op (h : hist) (t : toks) : string =
         (s_bool (a_redactable h.ast f scr)) (dec_of_n f.f_limit)
         (s_bool (is_scrape f && not (scrape_covered f now allow lim secs)))
   | "reopen" -> "ok"
+  | "map" -> "ok"
   | "rebuild" -> "ok"
   | "xput" -> let name = p_b t in let k = p_b t in let v = p_b t in
       if List.mem name h.names then (h.ast <- a_extra_put h.ast name k v; "ok") else "notable"
@@ -243,7 +270,7 @@ let spec_op (h : hist) (t : toks) : string =
 
 let cmd_dbhist (t : toks) : string =
   let names = p_list p_b t in
-  let h = { st = db_init names; ast = a_init names; offsets = []; names } in
+  let h = { st = db_init names; ast = a_init names; offsets = []; names; bm = None } in
   let segs = ref [] in
   let ssegs = ref [] in
   while t.i < Array.length t.a do
@@ -261,7 +288,7 @@ let cmd_dbhist (t : toks) : string =
 let cmd_crashmodel (t : toks) : string =
   let names = p_list p_b t in
   let _k = p_n t in
-  let h = { st = db_init names; ast = a_init names; offsets = []; names } in
+  let h = { st = db_init names; ast = a_init names; offsets = []; names; bm = None } in
   (* split token positions of the history ops *)
   let starts = ref [] in
   let i0 = t.i in
@@ -275,6 +302,22 @@ let cmd_crashmodel (t : toks) : string =
   let nh = List.length starts in
   (* run all but the last history op *)
   List.iteri (fun n st -> if n < nh - 1 then begin t.i <- st + 1; ignore (db_op h t) end) starts;
+  let files : string list =
+    if nh = 0 then "none" :: List.map map_digest (create_files chunk_debug)
+    else begin
+      let st = List.nth starts (nh - 1) in
+      t.i <- st + 1;
+      let op = next t in
+      match current_map h with
+      | None -> ["REPLAY-FAILED"]
+      | Some m ->
+          (match op with
+           | "store" -> let e = p_event t in
+               (match pre_checks h.st e with
+                | Ok _ -> List.map map_digest (crash_files chunk_debug m (enc_event e))
+                | _ -> [map_digest m.file])
+           | _ -> [map_digest m.file])
+    end in
   let cands : db list =
     if nh = 0 then [db_init names]
     else begin
@@ -292,7 +335,7 @@ let cmd_crashmodel (t : toks) : string =
   (* dedupe *)
   let cands = List.fold_left (fun acc c -> if List.mem c acc then acc else acc @ [c]) [] cands in
   let outs = List.map (fun c ->
-    let hc = { st = c; ast = a_init names; offsets = []; names } in
+    let hc = { st = c; ast = a_init names; offsets = []; names; bm = None } in
     let segs = ref [] in
     t.i <- cont_start;
     if t.i < Array.length t.a then begin
@@ -305,7 +348,7 @@ let cmd_crashmodel (t : toks) : string =
       t.a.(cont_start) <- ";;"
     end;
     String.concat " | " (List.rev !segs)) cands in
-  Printf.sprintf "crashmodel cands=%d ## %s" (List.length cands) (String.concat " ## " outs)
+  Printf.sprintf "crashmodel cands=%d files=%s ## %s" (List.length cands) (String.concat "," files) (String.concat " ## " outs)
 
 (* ---------- commands ---------- *)
 let run_line (line : string) : string =
